@@ -28,6 +28,15 @@ def spans_of(scf):
 
 
 def inv(res, src, spans, bait):
+    """C18 for one overlap result.  The statement does not say which end of a contig of
+    UNKNOWN orientation (strand 0) faces left, so for such rows either reading is accepted
+    (the code cuts them like reverse-strand contigs although they are streamed forward)."""
+    if any(is_frag(r) and r.strand == 0 for r in src.rows):
+        return OR(inv1(res, src, spans, bait, 1), inv1(res, src, spans, bait, -1))
+    return inv1(res, src, spans, bait, 1)
+
+
+def inv1(res, src, spans, bait, unknown_as):
     """the statement of C18 as one fork-free boolean (structure of res.rows is
     concrete on every path; all numbers are symbolic)"""
     rows = res.rows
@@ -55,10 +64,10 @@ def inv(res, src, spans, bait):
             return False                   # interior rows must be the identical objects
         # a shortened terminal fragment
         ok = AND(ok, r.name == s.name, r.strand == s.strand, s.start <= r.start, r.start <= r.end, r.end <= s.end)
-        if s.strand == 1:
-            tl, tr = r.start - s.start, s.end - r.end
-        else:
+        if s.strand == -1 or (s.strand == 0 and unknown_as == -1):
             tl, tr = s.end - r.end, r.start - s.start
+        else:
+            tl, tr = r.start - s.start, s.end - r.end
         if k == 0:
             tl_first = tl
             if n > 1:
@@ -132,7 +141,7 @@ def run(kinds, lens, strands, a, b, bst, ops):
 
 def _fn(kinds, strands, k, fixed_first=None, sym_bait_strand=False):
     n = len(kinds)
-    sname = "".join("p" if s == 1 else "m" for s in strands)
+    sname = "".join("p" if s == 1 else ("m" if s == -1 else "u") for s in strands)
     fname = f"t_{kinds}_{sname}_k{k}" + (f"_f{fixed_first}" if fixed_first is not None else "")
     largs = [f"l{i}: int" for i in range(n)]
     oargs = []
@@ -179,6 +188,7 @@ QUICK = [
     ("GFGFG", (-1, 1), 1, False), ("FFGF", (1, -1, 1), 1, False), ("FGGF", (-1, 1), 1, False),
     ("F", (1,), 2, True), ("F", (-1,), 2, True),
     ("FGF", (1, -1), 2, True), ("FGF", (-1, 1), 2, True),
+    ("F", (0,), 1, False), ("FGF", (0, 0), 1, False), ("F", (0,), 2, True),
 ]
 THOROUGH = [
     ("FGF", (1, 1), 2, True), ("FGF", (-1, -1), 2, True), ("FF", (1, -1), 2, True), ("GFGFG", (-1, 1), 2, True),
